@@ -121,6 +121,15 @@ func (p *MultilineAction) Do(event *pipeline.Event) pipeline.ActionResult {
 	shouldSplit := predictedLen > p.config.SplitEventSize
 	logFragmentLen := len(logFragment)
 	isEnd := logFragmentLen > 3 && logFragment[logFragmentLen-3:logFragmentLen-1] == newLine
+	if isEnd {
+		// `\\n` is an escaped backslash followed by the letter n, not a new line:
+		// the backslash of `\n` must not be escaped itself
+		backslashes := 0
+		for i := logFragmentLen - 3; i >= 1 && logFragment[i] == '\\'; i-- {
+			backslashes++
+		}
+		isEnd = backslashes%2 == 1
+	}
 	if !isEnd && !shouldSplit {
 		sizeAfterAppend := len(p.eventBuf) + len(logFragment)
 		// check buffer size before append
